@@ -71,8 +71,9 @@ Inductive fty :=
 | TDecimal (r : option txt_rules) (l : option lpay)
 | TTimestamp (r : option ts_rules) (l : option lpay)
 | TAny (only_defined : bool) (types : list str) (l : option lpay)
-| TObject (flatten : bool) (r : option obj_rules)
-| TOneof (rules : bool) (l : option lpay).              (* OneofField.Rules is an empty message: present or not *)
+(* object / oneof fields name the schema they refer to (a schema of the same package) *)
+| TObject (ref : str) (flatten : bool) (r : option obj_rules)
+| TOneof (ref : str) (rules : bool) (l : option lpay).              (* OneofField.Rules is an empty message: present or not *)
 
 Inductive pty :=
 | PSingle (t : fty)
@@ -126,7 +127,8 @@ Record keyext := KX { kx_primary : bool; kx_foreign : option (str * str); kx_ten
 Inductive pkind :=
 | KdInt32 | KdInt64 | KdUint32 | KdUint64 | KdString | KdBytes | KdBool
 | KdFloat | KdDouble | KdEnum
-| KdMsgObject | KdMsgOneof | KdTimestamp | KdDate | KdDecimal | KdAny | KdMapEntry (v : pkind)
+| KdMsgObject (name : str) | KdMsgOneof (name : str)   (* a message of the package declared as object / oneof, by name *)
+| KdTimestamp | KdDate | KdDecimal | KdAny | KdMapEntry (v : pkind)
 | KdOther.
 
 Record fout := FO {
